@@ -84,6 +84,7 @@ func FindLayerUsers(prefix string) (InUseLayerMap, error) {
 		if nil != err {
 			continue
 		}
+		verifPoint("proc-scan", pidString)
 		items, err := fdh.Readdir(-1)
 		fdh.Close()
 		if nil != err {
